@@ -1,5 +1,6 @@
 import Cose.Props.C18Lemmas
 import Cose.Gen.Footprints
+import Cose.Gen.Layouts
 /-!
 # C18 — CWT validation decides exactly per RFC 8392 for every timestamp and option
 
@@ -177,5 +178,11 @@ example : validateMap sampleOpts ⟨.secs 1800000000, .secs 9223371974719179008,
 example : validateMap sampleOpts ⟨.secs 9223371974719179008, .absent, .absent, .text "iss", .absent⟩
     = .err .expired := by decide +kernel
 example : validate sampleOpts ⟨"iss", "", 1800000000, 0, 1700000061⟩ = .err .iatFuture := by decide +kernel
+
+/-- **claim sets are decoded strictly**: the shared decoder enforces unique map keys and definite lengths (the options
+    literal in `key/cbor.go`, regenerated) — a claim set carrying `exp` twice is refused, never validated on either copy -/
+theorem claims_decoder_is_strict :
+    Cose.Gen.Layouts.cborOptions.lookup "decOpts" =
+      some [("DupMapKey", "cbor.DupMapKeyEnforcedAPF"), ("IndefLength", "cbor.IndefLengthForbidden")] := by decide +kernel
 
 end Cose.Props.C18
